@@ -138,7 +138,7 @@ type Engine struct {
 	Stats          SolverStats
 	Timeout        time.Duration
 	Workers        int
-	stubs          map[*ssa.Function]*ssa.Function
+	stubs          map[*ssa.Function][]*ssa.Function
 	extraExternals map[string]externalFn
 	runtimeErrT    types.Type
 	errorStringT   types.Type
@@ -160,7 +160,7 @@ func NewEngine(prog *ssa.Program) *Engine {
 		Sizes:          &types.StdSizes{WordSize: 8, MaxAlign: 8},
 		Timeout:        20 * time.Second,
 		Workers:        runtime.NumCPU(),
-		stubs:          map[*ssa.Function]*ssa.Function{},
+		stubs:          map[*ssa.Function][]*ssa.Function{},
 		extraExternals: map[string]externalFn{},
 		SkipInitPkgs:   map[string]bool{},
 		SharedInitPkgs: map[string]bool{},
@@ -181,7 +181,32 @@ func NewEngine(prog *ssa.Program) *Engine {
 }
 
 // Stub replaces calls to orig by calls to repl.
-func (e *Engine) Stub(orig, repl *ssa.Function) { e.stubs[orig] = repl }
+func (e *Engine) Stub(orig, repl *ssa.Function) {
+	for _, r := range e.stubs[orig] {
+		if r == repl {
+			return
+		}
+	}
+	e.stubs[orig] = append(e.stubs[orig], repl)
+}
+
+// stubFor returns the replacement of fn for harness h: the one defined in the
+// harness's own package if there are several.
+func (e *Engine) stubFor(fn *ssa.Function, h *Harness) *ssa.Function {
+	rs := e.stubs[fn]
+	if len(rs) == 0 {
+		return nil
+	}
+	if h != nil && h.Fn != nil {
+		for _, r := range rs {
+			if r.Pkg == h.Fn.Pkg {
+				return r
+			}
+		}
+		return nil // stubs of other harness packages do not apply
+	}
+	return rs[0]
+}
 
 var defaultOpaque = []string{
 	"reflect", "internal/reflectlite", "fmt", "encoding/json", "testing", "google.golang.org/protobuf/",
